@@ -27,7 +27,8 @@ HOSTILE = ['', ' ', 'x', '0', '-1', '1e5', '1E-400', '.5', '-.', '5.', '1' * 400
            '9999-12-31', '10000-01-01', '100000000-06-15', '2020-02-30', '2019-W53', '2020-W53', '2020-W00', '2020-W54', '0999-W01', '10000-W52',
            '24:00', '23:60', '00:00', '2020-13', '2020-00', '2020-01-01T24:00', '2020-01-01T10:00', '2020-01-01\n', 'א', 'ab', 'ltr', 'RTL',
            'auto', 'radio', 'checkbox', 'submit', 'date', 'week', 'time', 'month', 'number', 'range', 'datetime-local', 'tel', 'text',
-           'content-language', 'en', 'de-*', '*', '\x00', '\ud800', 'a' * 3000]
+           'content-language', 'en', 'de-*', '*', '\x00', '\ud800', 'a' * 3000, '1' * 5000 + '-01-01', '2' * 4301 + '-W01', '3' * 4400 + '-12']
+HUGE = __import__('re').compile(r'[0-9]{4301,}')      # beyond CPython's int-conversion limit: outside the model
 STATE_ATTRS = ['type', 'min', 'max', 'value', 'dir', 'lang', 'name', 'placeholder', 'http-equiv', 'content', 'TYPE', 'Dir']
 ODD = [None, 5, 2.5, b'bytes', b'', ('a', 'b'), ['a', ['b', 'c']], [1, None], True, [], ['x', b'y']]
 FREE_ATTRS = ['title', 'data-x', 'id', 'class', 'rel', 'href2']
@@ -141,7 +142,7 @@ def run(chk):
                 continue
             if odd or res[0]:
                 nontriv += 1
-            if driver_ok and rng.random() < 0.5:
+            if driver_ok and rng.random() < 0.5 and not HUGE.search(json.dumps([jsonable(t) for t in top], default=repr)):
                 case = {'selector': sel, 'ns': {'svg': gen.SVG}, 'queries': [('select', enc.path_of(tgt), 0)]}
                 try:
                     lines.append(matchcorr.lean_line(case, enc.top_of(tgt), c))
